@@ -195,7 +195,17 @@ type Block struct {
 }
 
 func (b *Block) Height() primitives.BlockHeight { return primitives.BlockHeight(b.H) }
+// blockRefTimeMode: how the consumer's blocks of the current run are stamped (one run at a time per process). Reference
+// times are whole seconds: consecutive blocks may share one, and nothing ties a committee to a reference time.
+var blockRefTimeMode int
+
 func (b *Block) ReferenceTime() primitives.TimestampSeconds {
+	switch blockRefTimeMode {
+	case 1:
+		return 0 // the value the library assumes for the block before genesis, too
+	case 2:
+		return primitives.TimestampSeconds(1000 + b.H/2)
+	}
 	return primitives.TimestampSeconds(1000 + b.H)
 }
 func (b *Block) Hash() primitives.BlockHash {
